@@ -248,3 +248,10 @@ Definition fold2_oo := g_fold2 (DT := IsNoneOptF64) (DT2 := IsNoneOptF64).
 Definition fold2_fo := g_fold2 (DT := IsNoneF64) (DT2 := IsNoneOptF64).
 Definition vapply_f := g_vapply (DT := IsNoneF64).
 Definition vapply_o := g_vapply (DT := IsNoneOptF64).
+
+(* the sign of a zero extreme (cells carry values, not the sign of zero): vmin vmax as 1 = sign bit set / 0 / null;
+   the witness of C11_perm_extrema_bitwise_refuted, replayed on the code on every run *)
+Definition sign_cell (o : option float) : list Z :=
+  c_opt (fun m => c_bool (match Prim2SF m with S754_zero s => s | S754_infinity s => s | S754_finite s _ _ => s | S754_nan => false end)) o.
+Definition zero_sign_f (xs : list float) : list Z :=
+  sign_cell (vmin (NA := NumF64) (DT := IsNoneF64) xs) ++ sign_cell (vmax (NA := NumF64) (DT := IsNoneF64) xs).
